@@ -42,6 +42,11 @@ fn owner_scripts() -> Vec<(&'static str, Vec<Op>)> {
         ("late-join-join", vec![Op::Sleep(2), Op::Join(o), Op::Join(o)]),
         ("late-consume_sync", vec![Op::Sleep(2), Op::ConsumeSync(o)]),
         ("join-then-consume", vec![Op::Join(o), Op::Consume(o)]),
+        // two joins pending at the same time in two different tasks (the second future is handed
+        // to a helper client, which awaits it; the stopper comes later): both resolve when the
+        // actor terminates, one of them with the value
+        ("2pending-joins-two-tasks", vec![Op::JoinStart(o), Op::JoinStart(o), Op::JoinGive(1), Op::JoinAwait(0)]),
+        ("2pending-joins-two-tasks-polled", vec![Op::JoinStart(o), Op::JoinPollOnce(0), Op::JoinStart(o), Op::JoinGive(1), Op::Sleep(2), Op::JoinAwait(0)]),
     ]
 }
 
@@ -97,8 +102,13 @@ fn oracle(s: &ProgScene<X>, t: &Trace) -> Vec<Violation> {
                 if !early_err {
                     crate::check::oblige("join-after-termination");
                     joins_done += 1;
+                    // "later joins yield None": a join that finds another join future already
+                    // created (which holds the task handle by then, or will) may say None at once
+                    let other_join_exists = an.ops.iter().any(|p| p.begin < end && !(p.c == o.c && p.i == o.i) && matches!(op_at(p.c, p.i), Some(Op::JoinStart(_) | Op::Join(_))))
+                        && an.ops.iter().filter(|p| p.begin < end && matches!(op_at(p.c, p.i), Some(Op::JoinStart(_) | Op::Join(_)))).count() >= 2;
                     match term {
                         Some((tidx, _)) if end > tidx => {}
+                        _ if o.res == Some(Res::None) && other_join_exists => {}
                         _ => out.push(Violation {
                             clause: "join-after-termination",
                             key: format!("C17/join-resolved-before-termination/{name}/script={script}"),
@@ -195,8 +205,13 @@ fn make_case_slow(script: (&'static str, Vec<Op>), subs: &[Vec<L>], stopper: boo
         let ops: Vec<Op> = p.iter().enumerate().map(|(i, l)| to_op(*l, msg_id(c + 1, i))).collect();
         clients.push(ClientSpec { init: FULL.to_vec(), ops });
     }
+    let two_tasks = script.0.contains("two-tasks");
     if stopper {
-        clients.push(ClientSpec { init: vec![HInit::Addr], ops: vec![Op::Stop(H::Addr(0))] });
+        // (with two joining tasks the stop comes once both joins are pending)
+        clients.push(ClientSpec { init: vec![HInit::Addr], ops: if two_tasks { vec![Op::Sleep(3), Op::Stop(H::Addr(0))] } else { vec![Op::Stop(H::Addr(0))] } });
+    }
+    if two_tasks {
+        clients.push(ClientSpec { init: vec![], ops: vec![Op::Sleep(1), Op::JoinTake, Op::JoinAwait(0)] });
     }
     let mut role = RoleCfg { stopped_yields: 1, ..RoleCfg::default() };
     match fail {
@@ -225,7 +240,8 @@ fn make_case_slow(script: (&'static str, Vec<Op>), subs: &[Vec<L>], stopper: boo
     );
     Case {
         desc,
-        exec: ExecCfg::default(),
+        // a join future polled exactly once sees whether the handle's lock suspends
+        exec: ExecCfg { lock_yield_is_choice: script.0.contains("polled"), ..ExecCfg::default() },
         bound: None,
         scene: Box::new(ProgScene { variant: crate::progscene::current_variant(), attach: crate::progscene::attach_for(mailbox), spawn, roles: vec![role], clients, extra: X { owner_script: script.0 }, oracle }),
     }
@@ -319,6 +335,9 @@ pub fn property() -> Property {
         cases,
         clauses: &["join-after-termination", "value-handed-out-once", "none-on-failure"],
         full_rerun_check: true,
-        assumptions: &["consume_sync documents that a rejected stop is reported before any waiting; that early error is not held against it"],
+        assumptions: &[
+            "consume_sync documents that a rejected stop is reported before any waiting; that early error is not held against it",
+            "'later joins yield None' is read to include a join that is started while another join future already exists: it may say None at once, before the actor has terminated (the other future holds the task handle); every other join resolves at termination, not before",
+        ],
     }
 }
